@@ -121,13 +121,14 @@ def run(ctx, facts):
         else:
             ctx.violation("JSON", P, "optional fields", where, "only %d of %d fields are required by the deserialiser: a torn file could yield default parameters" % (missing, len(names)))
     writers = [x for x in user_nodes(dfn) if x["k"] == "Call" and x.get("callee", "") in ("serde_json::to_writer", "serde_json::to_writer_pretty")]
-    readers = [x for x in user_nodes(rfn) if x["k"] == "Call" and x.get("callee", "") == "serde_json::from_reader"]
+    # all three demand end of input after the value (trailing characters are an error)
+    readers = [x for x in user_nodes(rfn) if x["k"] == "Call" and x.get("callee", "") in ("serde_json::from_reader", "serde_json::from_str", "serde_json::from_slice")]
     if len(writers) == 1 and nf.nf(writers[0]["args"][1]) == "self":
         ctx.ok("JSON", DUMP, "written by %s(writer, self)" % writers[0]["callee"], hirq.loc(writers[0]))
     else:
         ctx.violation("JSON", DUMP, "writer", hirq.loc(dfn), "expected exactly one serde_json::to_writer(.., self); found %d" % len(writers))
     if len(readers) == 1 and any(P in sub for sub in readers[0].get("substs", [])):
-        ctx.ok("JSON", RELOAD, "read by serde_json::from_reader::<_, SetSketchParams> (whole input, trailing data is an error)", hirq.loc(readers[0]))
+        ctx.ok("JSON", RELOAD, "read by %s into SetSketchParams (whole input, trailing data is an error)" % readers[0]["callee"], hirq.loc(readers[0]))
         # returned unchanged
         body = rfn["hir"]
         tail = nf.strip(body["expr"]) if "expr" in body else None
@@ -144,7 +145,7 @@ def run(ctx, facts):
         else:
             ctx.violation("JSON", RELOAD, "returned value", hirq.loc(rfn), "reload_json does not return the parsed value unchanged")
     else:
-        ctx.violation("JSON", RELOAD, "reader", hirq.loc(rfn), "expected exactly one serde_json::from_reader into SetSketchParams; found %d" % len(readers))
+        ctx.violation("JSON", RELOAD, "reader", hirq.loc(rfn), "expected exactly one serde_json::from_reader / from_str / from_slice into SetSketchParams; found %d" % len(readers))
     # 4 OPEN
     dch, droot, dpath, dn = open_chain(dfn)
     rch, rroot, rpath, rn = open_chain(rfn)
